@@ -877,12 +877,16 @@ func (r *runningStep) executeSubWorkflows(input executeInput) ([]any, map[int]st
 			}
 
 			r.logger.Debugf("Executing item %d...", i)
-			// Ignore the output ID here because it can only be "success"
-			_, outputData, err := r.workflow.Execute(r.ctx, input)
+			outputID, outputData, err := r.workflow.Execute(r.ctx, input)
 			r.lock.Lock()
-			if err != nil {
+			switch {
+			case err != nil:
 				itemErrors[i] = err.Error()
-			} else {
+			case outputID != "success":
+				// The subworkflow may declare other outputs; only "success" data fits the declared
+				// output schema of the loop, anything else means the item failed.
+				itemErrors[i] = fmt.Sprintf("subworkflow ended with output '%s' instead of 'success'", outputID)
+			default:
 				itemOutputs[i] = outputData
 			}
 			r.lock.Unlock()
